@@ -18,6 +18,10 @@ const MAX_SOURCE_NESTING: usize = 40;
 /// weave, see the validator's MAX_CHOICE_GROUPS_IN_A_WEAVE).
 const MAX_EMIT_NESTING: usize = 200;
 
+/// Containers inside one another in the compiled story. The runtime refuses to
+/// load a story that nests deeper than 128 levels.
+pub(crate) const MAX_STORY_NESTING: usize = 127;
+
 /// Tokens of a single expression (an operator chain becomes a tree as deep as
 /// it is long).
 pub(crate) const MAX_EXPRESSION_TOKENS: usize = 1024;
@@ -91,4 +95,25 @@ impl Drop for NestingGuard {
         self.counter
             .with(|depth| depth.set(depth.get().saturating_sub(1)));
     }
+}
+
+/// How many arrays and objects are inside one another in `value` (computed
+/// without recursion).
+pub(crate) fn json_depth(value: &serde_json::Value) -> usize {
+    let mut deepest = 0;
+    let mut pending = vec![(value, 1usize)];
+    while let Some((value, depth)) = pending.pop() {
+        match value {
+            serde_json::Value::Array(items) => {
+                deepest = deepest.max(depth);
+                pending.extend(items.iter().map(|item| (item, depth + 1)));
+            }
+            serde_json::Value::Object(entries) => {
+                deepest = deepest.max(depth);
+                pending.extend(entries.values().map(|entry| (entry, depth + 1)));
+            }
+            _ => {}
+        }
+    }
+    deepest
 }
